@@ -3,7 +3,8 @@
 EXTENDS Client
 
 CONSTANTS T, Tries, BufCap, V4, XidOf, Urgent, Timed, CancelChecksIdentity, TimerPerIteration,
-          MaxDgrams, DgramAttrs, MaxNow, AllowClose, AllowCtx, MaxTry
+          MaxDgrams, DgramAttrs, MaxNow, AllowClose, AllowCtx, MaxTry,
+          MaxCalls, WFault, TimeoutCarriesOver, WriteErrKeepsEntry
 
 \* values for the constants that a .cfg file cannot express (substituted with <-)
 XidAll7 == [c \in Callers |-> 7]
@@ -16,14 +17,16 @@ AttrsGR == {[xid |-> 7, kind |-> "good"], [xid |-> 7, kind |-> "rej"]}
 AttrsR == {[xid |-> 7, kind |-> "rej"]}
 
 Cfg == [T |-> T, tries |-> Tries, bufcap |-> BufCap, v4 |-> V4, xid |-> XidOf, urgent |-> Urgent, timed |-> Timed,
-        cancelChecksIdentity |-> CancelChecksIdentity, timerPerIteration |-> TimerPerIteration]
+        cancelChecksIdentity |-> CancelChecksIdentity, timerPerIteration |-> TimerPerIteration,
+        maxCalls |-> MaxCalls, wfault |-> WFault, timeoutCarriesOver |-> TimeoutCarriesOver,
+        writeErrKeepsEntry |-> WriteErrKeepsEntry]
 
 Init == InitWith(Cfg)
 EnvInject(xid, kind) == Len(dgs) < MaxDgrams /\ Inject([xid |-> xid, kind |-> kind])
 EnvCtx(c) == AllowCtx /\ CtxCancel(c)
 EnvClose == AllowClose /\ CloseStart
 EnvTick == now < MaxNow /\ Tick
-Next == \/ \E c \in Callers : Start(c)
+Next == \/ \E c \in Callers : Start(c) \/ Again(c)
         \/ Internal
         \/ EnvClose
         \/ \E a \in DgramAttrs : EnvInject(a.xid, a.kind)
